@@ -11,13 +11,21 @@ code->spec: handler enter/exit, turn begin/release, Tell results and lifecycle c
 import json, os, re, collections, threading, concurrent.futures
 import vlib, tlagraph
 
-PROPERTIES = ["C01", "C02", "C03"]
+PROPERTIES = ["C01", "C02", "C03", "C06"]
 SPEC = "ActorTurn"
 
 WHAT = {
     "C01": "no two handler invocations / turn owners at once",
     "C02": "accepted messages handled exactly once; actor drains (no lost wake-up)",
     "C03": "messages of one sender handled in send order",
+    "C06": "lifecycle hooks ordered, never overlapping message handling",
+}
+
+# C06 known findings: how a monitor failure is recognised as exactly that finding (mismatch text + an EXTERNAL stop
+# path - Shutdown/Restart called from a goroutine that is not the actor's own turn - earlier in the same history)
+C06_KNOWN = {
+    "Receive started after PostStop had started": "ReceiveAfterPostStop",
+    "PostStop runs on one goroutine while Receive runs on another": "PostStopDuringReceive",
 }
 
 
@@ -28,11 +36,16 @@ def monitor(ctx, trace, label):
     if r.depth != n + 1:
         raise vlib.Infra("monitor consumed %d of %d trace lines (%s)" % (r.depth - 1, n, label))
     return [(m.group(1), int(m.group(2)), m.group(3)) for m in
-            re.finditer(r'<<"MISMATCH", "(C\d+)", (\d+), "([^"]*)">>', r.out)], n
+            re.finditer(r'<<\s*"MISMATCH",\s*"(C\d+)",\s*(\d+),\s*"([^"]*)"\s*>>', r.out)], n
 
 
-def behaviours(g, walks, nmsgs, restarts):
-    return [{"steps": [{"a": s["a"], "args": s["args"]} for s in w], "nmsgs": nmsgs, "restarts": restarts} for w in walks]
+def behaviours(g, walks, nmsgs, ops):
+    out = []
+    for w in walks:
+        d = {"steps": [{"a": s["a"], "args": s["args"]} for s in w], "nmsgs": nmsgs, "restarts": 0, "stops": 0, "pills": 0}
+        d.update(ops)
+        out.append(d)
+    return out
 
 
 def run(ctx, pid):
@@ -43,47 +56,62 @@ def run(ctx, pid):
     tot = {"walks": 0, "steps": 0, "drift": 0, "hist": 0, "events": 0, "notq": 0}
     samples = []
     others = collections.Counter()
+    known_hits = collections.Counter()
 
     # ---- design level (the exhaustive runs also dump their state graphs for the edge cover)
-    futs = {
-        "base": pool.submit(ctx.tlc_must_hold, SPEC, "MC_ActorTurn.cfg", module="MC_ActorTurn", timeout=3000, workers=4, dump_dot=True),
-        "restart": pool.submit(ctx.tlc_must_hold, SPEC, "MC_ActorTurn_restart_q.cfg", module="MC_ActorTurn", timeout=3000, workers=4,
-                               dump_dot=True),
-        "asis": pool.submit(ctx.tlc, SPEC, "MC_ActorTurn_restart_asis.cfg", module="MC_ActorTurn", timeout=900, expect_fail=True),
-    }
-    if pid == "C02" or not quick:
-        futs["live"] = pool.submit(ctx.tlc_must_hold, SPEC, "MC_ActorTurn_live.cfg", module="MC_ActorTurn", timeout=3000, workers=4)
-    if not quick:
-        futs["base_t"] = pool.submit(ctx.tlc_must_hold, SPEC, "MC_ActorTurn_t.cfg", module="MC_ActorTurn", timeout=3000, workers=8)
-        futs["restart_t"] = pool.submit(ctx.tlc_must_hold, SPEC, "MC_ActorTurn_restart.cfg", module="MC_ActorTurn", timeout=3000, workers=8)
-    dumps = {
-        "base": (futs["base"], {"p1": 2, "p2": 1}, 0, 1200 if quick else 12000),
-        "restart": (futs["restart"], {"p1": 2}, 1, 500 if quick else 6000),
+    def mc(cfg, **kw):
+        return pool.submit(ctx.tlc_must_hold, SPEC, cfg, module="MC_ActorTurn", timeout=3000, workers=kw.pop("workers", 4), **kw)
+
+    futs = {"asis": pool.submit(ctx.tlc, SPEC, "MC_ActorTurn_restart_asis.cfg", module="MC_ActorTurn", timeout=900, expect_fail=True)}
+    dumps = {}
+    if pid == "C06":
+        futs["stop"] = mc("MC_ActorTurn_stop.cfg", dump_dot=True)
+        futs["pill"] = mc("MC_ActorTurn_pill.cfg", dump_dot=True)      # PoisonPill path: all C06 invariants hold in the model
+        futs["stoppill"] = mc("MC_ActorTurn_stoppill.cfg", dump_dot=True)
+        futs["restart"] = mc("MC_ActorTurn_restart_q.cfg", dump_dot=True)
+        futs["stop_c06"] = pool.submit(ctx.tlc, SPEC, "MC_ActorTurn_stop_c06.cfg", module="MC_ActorTurn", timeout=900, expect_fail=True)
+        dumps["stop"] = (futs["stop"], {"p1": 2}, {"stops": 1}, 1228 if quick else 100000)
+        dumps["pill"] = (futs["pill"], {"p1": 2}, {"pills": 1}, 500 if quick else 15000)
+        dumps["stoppill"] = (futs["stoppill"], {"p1": 2}, {"stops": 1, "pills": 1}, 500 if quick else 15000)
+        dumps["restart"] = (futs["restart"], {"p1": 2}, {"restarts": 1}, 400 if quick else 6000)
+        modes = (2, 3, 1)
+        kinds = ("mpsc", "seg")
+    else:
+        futs["base"] = mc("MC_ActorTurn.cfg", dump_dot=True)
+        futs["restart"] = mc("MC_ActorTurn_restart_q.cfg", dump_dot=True)
+        if pid == "C02" or not quick:
+            futs["live"] = mc("MC_ActorTurn_live.cfg")
+        if not quick:
+            futs["base_t"] = mc("MC_ActorTurn_t.cfg", workers=8)
+            futs["restart_t"] = mc("MC_ActorTurn_restart.cfg", workers=8)
+        dumps["base"] = (futs["base"], {"p1": 2, "p2": 1}, {}, 1200 if quick else 12000)
+        dumps["restart"] = (futs["restart"], {"p1": 2}, {"restarts": 1}, 500 if quick else 6000)
         # regression witnesses: walks of the model of the code BEFORE the restart fix (they drift harmlessly on the fixed code)
-        "asis": (pool.submit(ctx.tlc, SPEC, "Dump_ActorTurn_restart_asis_q.cfg", module="MC_ActorTurn", timeout=1800, dump_dot=True),
-                 {"p1": 1}, 1, 300 if quick else 2000),
-    }
+        dumps["asis"] = (pool.submit(ctx.tlc, SPEC, "Dump_ActorTurn_restart_asis_q.cfg", module="MC_ActorTurn", timeout=1800, dump_dot=True),
+                         {"p1": 1}, {"restarts": 1}, 300 if quick else 2000)
+        modes = (0, 1)
+        kinds = ("mpsc", "seg", "fair", "nbring", "bounded")
 
     # ---- free-running histories (real workers, no gating)
-    def stress(kind, restarts):
+    def stress(kind, restarts):      # restarts = disturbance mode: 0 none, 1 Restart, 2 external Stop, 3 PoisonPill
         t = ctx.tmp("stress-%s-%d.ndjson" % (kind, restarts))
         n = 60 if quick else 600
         p = ctx.run([exe, "stress", str(n), "3", "3", str(ctx.seed * 100 + len(kind) + restarts), t, "2", kind, str(restarts)], timeout=1800)
         rs = json.loads(p.stdout.strip().splitlines()[-1])
         mm, nl = monitor(ctx, t, "stress-%s-%d" % (kind, restarts))
-        return ("stress %s restarts=%d" % (kind, restarts)), rs, mm, nl, t
+        return ("stress %s mode=%d" % (kind, restarts)), rs, mm, nl, t
 
-    sfuts = [pool.submit(stress, k, r) for k in ("mpsc", "seg", "fair", "nbring", "bounded") for r in (0, 1)]
+    sfuts = [pool.submit(stress, k, r) for k in kinds for r in modes]
 
     # ---- spec -> code
-    def replay(label, dump_fut, nmsgs, restarts, nsel):
+    def replay(label, dump_fut, nmsgs, ops, nsel):
         d = dump_fut.result()
         g = tlagraph.Graph.load(os.path.join(d.rundir, "graph.dot"))
         walks, left = g.edge_cover(rng)
         if left:
             raise vlib.Infra("edge cover incomplete (%s)" % label)
         sel = vlib.sample(rng, walks, nsel)
-        beh = behaviours(g, sel, nmsgs, restarts)
+        beh = behaviours(g, sel, nmsgs, ops)
         bfile = ctx.tmp("beh-%s.ndjson" % label)
         trace = ctx.tmp("trace-%s.ndjson" % label)
         vlib.write_ndjson(bfile, beh)
@@ -103,7 +131,7 @@ def run(ctx, pid):
                        "restart) on a real actor system + free-running 3-sender runs per FIFO mailbox kind with/without concurrent "
                        "Restart; distinct_nontrivial = distinct edge-cover walks replayed (each interleaves >= 2 threads)",
                "atomic_steps_replayed": tot["steps"], "replay_drift": tot["drift"], "events_judged": tot["events"],
-               "not_quiescent": tot["notq"], "mismatches_for_other_properties": dict(others), "exhaustive": False}
+               "not_quiescent": tot["notq"], "mismatches_for_other_properties": dict(others), "known_finding_hits": dict(known_hits), "exhaustive": False}
         ctx.evidence("model_checking", cov,
                      ["default (unbounded) mailbox at atomic-step granularity; other FIFO mailboxes through free-running runs",
                       "one actor without children; restart is PID.Restart from an external goroutine; throughput budget 2",
@@ -114,6 +142,9 @@ def run(ctx, pid):
         r = f.result()
         if name == "asis" and r.violated != "SingleOwner":
             raise vlib.Infra("ActorTurn.tla with Defects={LateReset} no longer violates SingleOwner (spec changed?)")
+        if name == "stop_c06" and r.violated not in ("NoReceiveDuringPostStop", "NoReceiveAfterPostStop"):
+            if ctx.is_known("ReceiveAfterPostStop") or ctx.is_known("PostStopDuringReceive"):
+                raise vlib.Infra("stale finding: the as-is stop model no longer violates the C06 invariants")
     for fut in rfuts + sfuts:
         label, rs, mm, nl, trace = fut.result()
         tot["walks"] += rs["behaviours"] if label.startswith("replay") else 0
@@ -123,6 +154,20 @@ def run(ctx, pid):
         tot["events"] += nl
         tot["notq"] += rs["not_quiescent"]
         mine = [m for m in mm if m[0] == pid]
+        if pid == "C06" and mine:
+            rows_ = vlib.read_ndjson(trace)
+            rest = []
+            for m in mine:
+                fid = C06_KNOWN.get(m[2])
+                st_ = max(i for i in range(m[1]) if rows_[i]["ev"] == "New")
+                external = any(e["ev"] in ("stopcall", "restartcall") for e in rows_[st_:m[1]])
+                k = ctx.is_known(fid) if fid else None
+                if k and external:
+                    known_hits[fid] += 1
+                    ctx.report_known(fid, k["what"])
+                else:
+                    rest.append(m)
+            mine = rest
         for m in mm:
             if m[0] != pid:
                 others[m[0]] += 1
